@@ -44,6 +44,8 @@ type Run struct {
 	// Reduced holds, per violation key, a smaller plan that the oracle itself knows
 	// reproduces the violation (e.g. the single fault out of an enumeration).
 	Reduced map[string]any
+	// fixedDigest is set when the run was executed in a child process
+	fixedDigest string
 }
 
 func NewRun(prop string) *Run {
@@ -124,7 +126,12 @@ func (r *Run) Violate(component, class, format string, args ...any) {
 	r.Event("oracle", "violation", component, class)
 }
 
-func (r *Run) Digest() string { return hex.EncodeToString(r.h.Sum(nil)) }
+func (r *Run) Digest() string {
+	if r.fixedDigest != "" {
+		return r.fixedDigest
+	}
+	return hex.EncodeToString(r.h.Sum(nil))
+}
 
 func (r *Run) TraceHash() uint64 {
 	f := fnv.New64a()
